@@ -274,6 +274,19 @@ def run_singular(key):
         return viol(f'{fn} raised on singular/zero PSD matrices {pattern}: {e!r}')
     if got.shape != (F, D):
         return viol(f'shape {got.shape}')
+    # the same beamformer through the wrapper, with and without blind analytic normalisation: finite as well
+    # (a bin without noise power gets the factor 0, never 0/0)
+    if not key.get('single') and which == 'noise' and 1 not in pattern:
+        bw = _bw()
+        nm = 'mvdr_souden' if fn == 'souden' else 'wmwf'
+        kw_ = dict(ref_channel=0) if fn == 'souden' else dict(reference_channel=0, distortion_weight=mu)
+        try:
+            wb = np.asarray(bw.get_bf_vector(nm + '+ban', X, N, **kw_))
+        except Exception as e:  # noqa
+            return viol(f"get_bf_vector('{nm}+ban') raised on zero PSD matrices {pattern}: {e!r}")
+        jb = np.ones(F, bool) if not (fn == 'wmwf' and mu == 0) else np.array([p != 2 for p in pattern])
+        if not np.isfinite(wb[jb]).all():
+            return viol(f"get_bf_vector('{nm}+ban'): non-finite vector for pattern {pattern} ({which})")
     judged = np.ones(F, bool)
     if fn == 'wmwf' and mu == 0:
         judged = np.array([not (p == 2 and which in ('noise', 'both', 'target')) for p in pattern])
